@@ -69,6 +69,7 @@ func (l *orderedLoader) Open(p string) (io.ReadCloser, error) {
 }
 
 var markRe = regexp.MustCompile(`M(\d+);`)
+var importRe = regexp.MustCompile(`\{\{import "([^"]*)"\}\}`)
 
 func contentSrc(c *sx.Sexp, i int) string {
 	// c.Xs[i:] = mark (refs) (incs) bad
@@ -424,6 +425,27 @@ func init() {
 					}
 					if !openedNow && fail == "" {
 						fail = "GetTemplate(" + strconv.Quote(name) + "), a name not asked for before, was answered without opening " + want + " (trace " + strings.Join(raw, " ") + ")"
+					}
+				}
+				if op.Xs[0].A == "get" && dev && err == nil && t != nil {
+					// development mode: every lookup reads again what the template's header pulls in (its block table
+					// depends on the files it imports, whose edits must be visible at once)
+					for _, im := range importRe.FindAllStringSubmatch(ld.files[t.Name], -1) {
+						ref := path.Clean(im[1])
+						for _, e := range exts {
+							if _, ok := ld.files[ref+e]; ok {
+								opened := false
+								for _, ev := range raw {
+									if ev == "O:"+ref+e {
+										opened = true
+									}
+								}
+								if !opened && fail == "" {
+									fail = "development mode: GetTemplate(" + strconv.Quote(name) + ") did not read " + ref + e + ", which " + t.Name + " imports, from the loader again (trace " + strings.Join(raw, " ") + ")"
+								}
+								break
+							}
+						}
 					}
 				}
 				if op.Xs[0].A == "get" && !dev && lastGet == name {
